@@ -173,6 +173,14 @@ def m_doubledname(toks):
             while k + 2 < len(toks) and toks[k + 1].text == '.' and toks[k + 2].kind == 'name':
                 k += 2
             yield f'header name {toks[k].text} #{k} after {t.text} doubled', text_of(toks[:k + 1] + [Tok(' ', 'ws'), toks[k]] + toks[k + 1:])
+    # an alias clause written twice: Table t as a as a {
+    for i, t in enumerate(toks):
+        if t.kind == 'kw' and t.text.lower() == 'as':
+            j = i + 1
+            while j < len(toks) and toks[j].kind == 'ws':
+                j += 1
+            if j < len(toks) and toks[j].kind == 'name':
+                yield f'alias clause #{i} repeated', text_of(toks[:j + 1] + [Tok(' ', 'ws')] + toks[i:j + 1] + toks[j + 1:])
 
 
 def lines_of(toks):
